@@ -409,9 +409,18 @@ func ruleENG6(c *Ctx) {
 				case *ssa.Send:
 					bad = append(bad, "channel send in "+fnName(f)+" at "+p.InstrPos(in))
 				case *ssa.Select:
-					bad = append(bad, "select in "+fnName(f)+" at "+p.InstrPos(in))
+					// waiting on the context's Done channel is cancellation plumbing, not asynchrony of the engine
+					onlyDone := len(x.States) > 0
+					for _, st := range x.States {
+						if !isDoneChan(st.Chan) {
+							onlyDone = false
+						}
+					}
+					if !onlyDone {
+						bad = append(bad, "select in "+fnName(f)+" at "+p.InstrPos(in))
+					}
 				case *ssa.UnOp:
-					if x.Op == token.ARROW {
+					if x.Op == token.ARROW && !isDoneChan(x.X) {
 						bad = append(bad, "channel receive in "+fnName(f)+" at "+p.InstrPos(in))
 					}
 				}
@@ -865,4 +874,10 @@ func comparatorAscending3(p *Prog, fn *ssa.Function) (bool, string) {
 		return false, "its comparator orders Salience descending, so MaxFunc selects the lowest salience"
 	}
 	return false, "its comparator does not compare the Salience of its two arguments"
+}
+
+// isDoneChan: v is the result of a Done() call on a context.
+func isDoneChan(v ssa.Value) bool {
+	call, ok := v.(*ssa.Call)
+	return ok && call.Call.IsInvoke() && call.Call.Method.Name() == "Done" && isNamed(call.Call.Value.Type(), "context", "Context")
 }
